@@ -1,14 +1,20 @@
 """C02 — genetic operators only produce well-formed, well-typed individuals.
 
-Lean: Vita/C02/{Model,Lemmas,Props}.lean (WF, operators as functions of explicit draws, decidable
-step relations, closure theorem).  Tie 1: tools/translate_mep_ops.py regenerates Vita/C02/Gen.lean (loop
-bounds, draw ranges, index expressions of the operators, from the clang AST) and Props.lean proves that
-they denote the model's operators (gen_*).  Tie 2: relational refinement — harness/c02_ops.cc runs the REAL
+Lean: Vita/C02/{Model,Lemmas,Props}.lean (WF, operators as functions of explicit draws AND of the environment
+they are given, decidable step relations, closure theorem over histories with one environment per step).
+Tie 1: tools/translate_mep_ops.py regenerates Vita/C02/Gen.lean (loop bounds, draw ranges, index expressions of
+the operators – recording WHICH quantity each bound uses: size() of the individual or a field of the problem –,
+the wedge loop of sum_container::roulette, the views symbol_set::roulette* ask, locus::operator<, the exon walk
+of random_locus, from the clang AST) and Props.lean proves that they denote the model's operators (gen_*).  Tie 2: relational refinement — harness/c02_ops.cc runs the REAL
 operators (every crossover flavour forced through the VITA_VERIF hook) on real individuals and
 prints pre/post genomes; the compiled Lean driver decides `WF post` and the operator's `Step`
 relation for every observed call; an independent C++ oracle (well-formedness + provenance, written
 from the property text, not is_valid) judges the same call; every result is executed under
 ASan/UBSan.  Disagreements are examined (search: replay in the assertion-enabled build).
+The environment of the problem (code_length, patch_length, team size) is edited during the histories:
+operators receive individuals / teams built under an earlier environment (shorter or longer than the
+current code_length, possibly no longer than the current patch_length), individuals of different sizes
+coexist; the request of `mutation` / `tmutation` carries the environment it was given.
 """
 import concurrent.futures as cf
 import glob
@@ -115,7 +121,14 @@ def run(chk, replay=None):
         chk.cov["translated"] = {"ctor_writes": len(tables["ctor"]), "destroy_writes": len(tables["destroy"]),
                                  "crossover_cases": [n for _, n in tables["xoverCases"]],
                                  "integer_draws": {k[6:]: len(tables[k]["draws"]) for k in tables if k.startswith("xover_")},
-                                 "gene_arg_bits": tables["geneArgs"]["bits"]}
+                                 "gene_arg_bits": tables["geneArgs"]["bits"],
+                                 "ctor_dims": [x[0] for x in tables["ctorDims"]],
+                                 "mutation_candidate_cases": str(tables["mutationCand"]).count("'cond'") + 1,
+                                 "wedge_loop": {"cmp": tables["wedge"]["cmp"], "step": [v for v, _ in tables["wedge"]["step"]]},
+                                 "roulette_views": [tables["rouletteSel"]["guard"], tables["rouletteSel"]["then"],
+                                                    tables["rouletteSel"]["else"], tables["rouletteTerminal"]],
+                                 "random_locus": tables["randomLocus"]["container"] + " " + tables["randomLocus"]["advance"],
+                                 "exon_iterator": tables["exonIter"]["container"] + " " + tables["exonIter"]["atEnd"]}
         chk.cov["gen_changed_vs_committed"] = bool(gen_changed)
     except Refuse as e:
         broken.append("tools/translate_mep_ops.py refuses the current sources (unknown shape of an operator): %s" % e)
@@ -156,7 +169,7 @@ def run(chk, replay=None):
     if replay:
         r = json.load(open(replay))["replay"]
         a = r.get("args") or []
-        if a and a[0] == "replay":                       # a corpus request
+        if a and a[0] == "replay" and r.get("stdin"):    # a corpus file (the record carries its requests)
             jobs.append(("replay", a, r.get("stdin")))
         elif a and a[0] == "run" and r.get("scenario") is not None:   # a generated scenario
             jobs.append(("replay", ["run", a[1], str(r["scenario"]), str(r["scenario"] + 1)], None))
@@ -172,7 +185,7 @@ def run(chk, replay=None):
         for f in corpus:
             jobs.append(("corpus:" + os.path.basename(f), ["replay", str(set_seed), "8"], open(f).read()))
         chk.cov["corpus_files"] = len(corpus)
-        nscen = 3000 if chk.tier == "quick" else 140000     # ≈ 3 M calls: ≤ 15 min on a box with load 60
+        nscen = 3000 if chk.tier == "quick" else 120000     # ≈ 2.9 M calls: ≈ 14 min on 4 cores of a box with load 70
         nshard = 4 if chk.tier == "quick" else 64
         step = (nscen + nshard - 1) // nshard
         for s in range(nshard):
@@ -238,6 +251,11 @@ def run(chk, replay=None):
                 if m:
                     opname = m.group(1) or m.group(2)
             tags = {"op": opname, "kind": "sanitizer-abort", "san": kind}
+            if opname in ("mutation", "tmutation") and len(t) > 6 and all(x.isdigit() for x in t[1:7]):
+                # mutation <ss> <env code_length> <env patch_length> <zero?> [<k>] <rows> …
+                rows_ = int(t[5] if opname == "mutation" else t[6])
+                tags.update({"env_code_length": int(t[2]), "env_patch_length": int(t[3]), "rows": rows_,
+                             "env_patch_length_exceeds_size": int(t[3]) > rows_})
             chk.count("death:" + tags["op"])
             chk.violation("the harness died (rc=%s, %s) in a real operator call (%s): %s"
                           % (d["rc"], kind, opname, (req or "(reported at exit)")[:200]),
@@ -267,6 +285,19 @@ def run(chk, replay=None):
                     chk.count("mutation:pgm=%d%%" % info["pgm%"])
             if "team" in info:
                 chk.count("team:%d" % info["team"])
+            # the operand against the environment the operator was given
+            if "szenv" in info:
+                rel = ("<", "=", ">")
+                chk.count("%s:size%scode_length-of-the-environment" % (op, rel[info["szenv"]]))
+                chk.count("%s:size%spatch_length-of-the-environment" % (op, rel[info["szpl"]]))
+                if info["szenv"] != 1:
+                    chk.count("calls-under-an-environment-that-does-not-fit-the-operand")
+            if info.get("drift"):
+                chk.count("environment-edited-before-this-call")
+            if info.get("mixed"):
+                chk.count("tmutation:members-of-different-sizes")
+            if op == "tmutation" and "envteam" in info and info["envteam"] != info.get("team"):
+                chk.count("tmutation:team-size-differs-from-env.team.individuals")
             # REAL argument counts of the genes of the result, overwrites across the inline/heap boundary
             for k, v in info.items():
                 if k.startswith("ar") and k[2:].isdigit():
@@ -289,6 +320,8 @@ def run(chk, replay=None):
                 continue
             tags = {"op": op, "set": info.get("set"), "rows": rows, "why": o["why"],
                     "flavour": FLAVOURS.get(info.get("flavour")), "lean": ans}
+            if "envlen" in info:
+                tags.update({"env_code_length": info["envlen"], "env_patch_length": info.get("pl")})
             rep = {"request_line": lline, "oracle": o, "lean": ans, "seed": set_seed, "args": args,
                    "stdin": jstdin, "scenario": o["scenario"], "op_index": o["opn"]}
             if o["expect"] == "bad":
@@ -366,6 +399,8 @@ def run(chk, replay=None):
              "are judged by the Lean driver (WF + Step relation), by the C++ oracle and by execution under "
              "ASan/UBSan; distinct = distinct request lines whose result differs from its operand(s)",
         trusted=["Lean 4.33 kernel", "tools/translate_mep_ops.py + cxx2lean.py (clang-14 JSON AST -> loop bounds, draw ranges, "
-                 "index expressions; shapes it does not know are refused)", "harness/c02_ops.cc (printing of genomes through operator[] / best() / age() / "
+                 "index expressions, the roulette wedge loop, the views asked by roulette / roulette_terminal, locus "
+                 "operator<, the shape of random_locus; shapes it does not know are refused)",
+                 "Vita/C02/GenSem.lean (meaning of loops / writes / draws / the wedge-loop language / the ordered-set walk)", "harness/c02_ops.cc (printing of genomes through operator[] / best() / age() / "
                  "the VITA_VERIF flavour accessor)", "hand-written model Vita/C02/Model.lean (bounds and index expressions tied by translation + "
                  "gen_* theorems, the rest by the relational check)", "g++ 12 ASan/UBSan", "contracts of std::uniform_int_distribution / bernoulli_distribution"])
